@@ -77,8 +77,9 @@ func c20Run(t *testing.T, in c20Input) (obs map[string]interface{}, extra map[st
 		a2.Commit()
 	})
 	obs = map[string]interface{}{"h": exp1.Height, "t": importTime.UnixMilli()}
-	extra = map[string]interface{}{"failed_ops": w.failed, "blocks": a1.LastBlockHeight(), "strings": stringClasses(ctx1, a1)}
+	extra = map[string]interface{}{"failed_ops": w.failed, "blocks": a1.LastBlockHeight(), "strings": stringClasses(ctx1, a1), "devgas": w.dg.classes()}
 	e1, canon1 := parseExport(exp1.AppState, a1.AppCodec(), r)
+	obs["dg"] = w.dg.emit(r)
 	if importPanic != "" {
 		// the export cannot be imported at all: reported as a violation by the checker
 		obs["import_ok"] = 0
@@ -168,6 +169,33 @@ func genC20Case(r *Rng) c20Input {
 		}
 		return r.Intn(5)
 	}
+	// x/devgas registry messages: D = path (signed tx / message router)
+	dgop := func(k string, a, b, c int) { ops = append(ops, c20Op{K: k, A: a, B: b, C: c, D: r.Pick(3, 2)}) }
+	// withdrawer choice (see dgWithdrawer): users (mostly the hub), the deployer, the contract, the stored one, bad strings
+	dgWd := func(reg bool) int {
+		switch r.Pick(4, 4, 2, 1, 1, 1, 1, 1) {
+		case 0:
+			return usr()
+		case 1:
+			return 5 // the deployer: registered with itself / updated BACK to the deployer
+		case 2:
+			return 6 // the contract (what a factory contract must use)
+		case 3:
+			return 7 // empty
+		case 4:
+			return 8 // malformed
+		case 5:
+			return 9 // upper-case bech32
+		case 6:
+			if reg {
+				return usr()
+			}
+			return 10 // the value already stored
+		default:
+			return 11 // the deployer, upper-case
+		}
+	}
+	nWasm := 0 // wasm contracts instantiated so far in this history
 	hubWord := r.Intn(5)
 	wordv := func() int {
 		if r.Chance(1, 2) {
@@ -198,7 +226,16 @@ func genC20Case(r *Rng) c20Input {
 		case 9:
 			add("block", r.Intn(6), 0, 0)
 		case 10:
-			add("fs_del", r.Intn(5), 0, 0)
+			switch r.Intn(4) {
+			case 0:
+				dgop("fs_cancel", r.Intn(4), r.Pick(5, 1, 1, 1), 0)
+			case 1:
+				dgop("fs_upd", r.Intn(4), 0, dgWd(false))
+			case 2:
+				dgop("fs_reg", r.Intn(4), 0, dgWd(true))
+			default:
+				dgop("dg_params", r.Intn(7), boolInt(r.Chance(1, 4)), r.Intn(5))
+			}
 		case 11:
 			add("or_vote", 1+r.Intn(7), 0, 0)
 		case 12:
@@ -221,7 +258,7 @@ func genC20Case(r *Rng) c20Input {
 			single()
 			continue
 		}
-		switch r.Pick(5, 3, 4, 3, 3, 3, 4, 3, 2, 4) {
+		switch r.Pick(5, 3, 4, 3, 3, 3, 4, 3, 2, 2, 6) {
 		case 0: // contracts: constructor storage, later writes / clears, maybe a self-destruct, maybe empty code
 			var slots [][2]int
 			for j := r.Intn(4); j > 0; j-- {
@@ -267,15 +304,30 @@ func genC20Case(r *Rng) c20Input {
 			if r.Chance(1, 4) {
 				add("sudo_root", usr(), 0, 0)
 			}
-		case 5: // inflation: params, on, a few epochs, maybe off and more epochs (skipped epochs)
+		case 5: // inflation: params, on/off in every order around a few epochs (skipped epochs before, between, after)
 			if r.Chance(1, 2) {
 				add("infl_params", r.Intn(5), r.Intn(40), 0)
 			}
-			add("infl_toggle", 1, 0, 0)
-			add("epoch", r.Intn(3), 0, 0)
-			if r.Chance(1, 2) {
+			switch r.Intn(3) {
+			case 0: // on, epochs, maybe off and more epochs (skipped epochs at export time, inflation off)
+				add("infl_toggle", 1, 0, 0)
+				add("epoch", r.Intn(3), 0, 0)
+				if r.Chance(1, 2) {
+					add("infl_toggle", 0, 0, 0)
+					add("epoch", r.Intn(3), 0, 0)
+				}
+			case 1: // epochs skipped while inflation is off / was never started, then switched ON before the export
+				add("epoch", r.Intn(3), 0, 0)
+				add("infl_toggle", 1, 0, 0)
+				if r.Chance(1, 2) {
+					add("epoch", r.Intn(3), 0, 0)
+				}
+			case 2: // paused and resumed
+				add("infl_toggle", 1, 0, 0)
+				add("epoch", r.Intn(2), 0, 0)
 				add("infl_toggle", 0, 0, 0)
 				add("epoch", r.Intn(3), 0, 0)
+				add("infl_toggle", 1, 0, 0)
 			}
 		case 6: // a full oracle round: some validators vote, the rest collect a miss counter; rates are set
 			if r.Chance(1, 2) { // first change the whitelist (mixed-case / IBC pairs) and let it come into force
@@ -307,11 +359,64 @@ func genC20Case(r *Rng) c20Input {
 			if r.Chance(1, 2) {
 				add("or_alloc", r.Intn(50), r.Intn(4), 0)
 			}
-		case 9: // fee shares and feeder delegations
-			add("fs_set", r.Intn(5), usr(), usr())
-			if r.Chance(1, 2) {
-				add("fs_set", r.Intn(5), usr(), usr())
+		case 10: // x/devgas: wasm contracts and a history of registry messages on them
+			nc := r.Range(1, 3)
+			base := nWasm
+			factory := map[int]bool{}
+			for j := 0; j < nc; j++ {
+				mode := r.Pick(4, 2, 1, 1, 1) // admin: none / creator / other user / gov / previous contract
+				add("wasm_new", usr(), mode, 0)
+				factory[base+j] = mode == 3 || (mode == 4 && nWasm > 0)
+				nWasm++
 			}
+			who := func() int { return r.Pick(12, 1, 1, 1, 0, 0, 1, 0) } // mostly the authorised account; strangers; upper case
+			cix := func() int {
+				if r.Chance(1, 12) {
+					return 100 + r.Intn(5) // an address that is no contract
+				}
+				return r.Intn(nWasm) // any contract of the history so far
+			}
+			regWd := func(c int) int {
+				if factory[c] && r.Chance(5, 6) {
+					return 6 // a factory contract can only be registered with itself as withdrawer
+				}
+				return dgWd(true)
+			}
+			for j := 0; j < nc; j++ {
+				if r.Chance(7, 8) {
+					dgop("fs_reg", base+j, who(), regWd(base+j))
+				}
+			}
+			for j := r.Range(1, 5); j > 0; j-- {
+				switch r.Pick(2, 4, 3, 2, 1, 1) {
+				case 0:
+					c := cix()
+					dgop("fs_reg", c, who(), regWd(c))
+				case 1:
+					dgop("fs_upd", cix(), who(), dgWd(false))
+				case 2: // the withdrawer is pointed away and later BACK to the deployer
+					c := base + r.Intn(nc)
+					dgop("fs_upd", c, 0, usr())
+					if r.Chance(1, 3) {
+						add("block", r.Intn(3), 0, 0)
+					}
+					dgop("fs_upd", c, 0, r.Pick(0, 0, 0, 0, 0, 3, 0, 0, 0, 0, 0, 1)) // 5: the deployer / 11: in upper case
+				case 3:
+					c := cix()
+					dgop("fs_cancel", c, who(), 0)
+					if r.Chance(1, 2) {
+						dgop("fs_reg", c, who(), regWd(c)) // register again after a cancel
+					}
+				case 4:
+					add("wasm_admin", cix(), r.Intn(5), 0)
+				case 5:
+					dgop("dg_params", r.Intn(7), boolInt(r.Chance(1, 5)), r.Intn(5))
+					if r.Chance(2, 3) {
+						dgop("dg_params", r.Pick(3, 0, 1, 1, 0, 0, 1), 0, 0) // a valid, enabled value again
+					}
+				}
+			}
+		case 9: // feeder delegations
 			first := r.Intn(3)
 			for v := 0; v < 3; v++ {
 				if v == first || r.Chance(2, 3) {
@@ -330,7 +435,7 @@ func boolInt(b bool) int {
 	return 0
 }
 
-// fixed openers: one history touching every mechanism named in the property, and small ones
+// fixed openers: one history touching every mechanism named in the property, one around the x/devgas registry, and small ones
 // around the historic suspects (pending rewards, custom metadata, self-destruct, empty code).
 func c20Openers() []c20Input {
 	full := []c20Op{
@@ -355,8 +460,9 @@ func c20Openers() []c20Input {
 		{K: "epoch", A: 2},
 		{K: "infl_toggle", A: 0},
 		{K: "epoch", A: 0},
-		{K: "fs_set", A: 0, B: 1, C: 2},
-		{K: "fs_set", A: 3, B: 1, C: 4},
+		{K: "wasm_new", A: 1, B: 0}, {K: "wasm_new", A: 1, B: 1}, {K: "wasm_new", A: 2, B: 3},
+		{K: "fs_reg", A: 0, B: 0, C: 2}, {K: "fs_reg", A: 1, B: 0, C: 4, D: 1}, {K: "fs_reg", A: 2, B: 3, C: 6},
+		{K: "fs_upd", A: 1, B: 0, C: 3},
 		{K: "or_delegate", A: 1, B: 3},
 		{K: "or_prevote", A: 3, B: 1},
 		{K: "or_vote", A: 3},
@@ -370,7 +476,8 @@ func c20Openers() []c20Input {
 		{K: "tf_create", A: 0, B: 0}, {K: "tf_create", A: 1, B: 0}, {K: "tf_create", A: 1, B: 1},
 		{K: "tf_admin", A: 0, B: 3}, {K: "tf_admin", A: 1, B: 3}, {K: "tf_admin", A: 2, B: 3}, // three denoms, one admin
 		{K: "tf_md", A: 0, B: 1}, {K: "tf_md", A: 1, B: 1},
-		{K: "fs_set", A: 0, B: 4, C: 4}, {K: "fs_set", A: 1, B: 4, C: 4}, {K: "fs_set", A: 2, B: 4, C: 4}, // one deployer = withdrawer
+		{K: "wasm_new", A: 4, B: 0}, {K: "wasm_new", A: 4, B: 1}, {K: "wasm_new", A: 4, B: 0},
+		{K: "fs_reg", A: 0, B: 0, C: 4}, {K: "fs_reg", A: 1, B: 0, C: 4, D: 1}, {K: "fs_reg", A: 2, B: 0, C: 5}, // one deployer = withdrawer
 		{K: "sudo_add", A: 2, B: 2},
 		{K: "deploy", A: 0, B: 1, Slots: [][2]int{{0, 7}, {1, 7}, {2, 7}}}, {K: "deploy", A: 1, B: 1, Slots: [][2]int{{0, 7}, {1, 7}}}, // same code, same words
 		{K: "ftcoin", A: 0}, {K: "ftcoin", A: 0}, {K: "ftcoin", A: 1, B: 0}, {K: "erc20", A: 0, B: 3}, {K: "erc20", A: 1, B: 3}, // same name/decimals
@@ -386,13 +493,31 @@ func c20Openers() []c20Input {
 		{K: "ftcoin", A: 0}, {K: "ftcoin", A: 0}, {K: "ftcoin", A: 1, B: 1}, // FunTokens of ucoin0, ibc/HEX and a mixed-case tf denom
 		{K: "convert", A: 1, B: 5, C: 0}, {K: "epoch", A: 0},
 	}
+	// x/devgas registry histories: every message, every order (register / update away / update back to the deployer /
+	// cancel / register again / factory contract registering itself / params off and on), both delivery paths
+	devgas := []c20Op{
+		{K: "wasm_new", A: 0, B: 0}, {K: "wasm_new", A: 1, B: 1}, {K: "wasm_new", A: 2, B: 3}, {K: "wasm_new", A: 3, B: 2},
+		{K: "fs_reg", A: 0, B: 0, C: 2},                                         // creator registers, separate withdrawer
+		{K: "fs_upd", A: 0, B: 0, C: 5},                                         // … and takes the payouts back: withdrawer := deployer
+		{K: "fs_reg", A: 1, B: 0, C: 5, D: 1},                                   // admin registers with itself as withdrawer (router path)
+		{K: "fs_upd", A: 1, B: 0, C: 3}, {K: "fs_upd", A: 1, B: 0, C: 11, D: 1}, // away and back (upper-case string)
+		{K: "fs_reg", A: 2, B: 2, C: 6},                                                                // gov-admin ("factory") contract: anyone registers it with itself
+		{K: "fs_reg", A: 3, B: 0, C: 4}, {K: "fs_cancel", A: 3, B: 0}, {K: "fs_reg", A: 3, B: 0, C: 5}, // cancel, register again
+		{K: "fs_upd", A: 0, B: 2, C: 1}, {K: "fs_reg", A: 0, B: 0, C: 1}, {K: "fs_upd", A: 3, B: 0, C: 10}, // rejected ones
+		{K: "fs_reg", A: 100, B: 0, C: 1, D: 1}, {K: "fs_upd", A: 1, B: 0, C: 7, D: 1}, {K: "fs_upd", A: 1, B: 0, C: 8, D: 1},
+		{K: "dg_params", A: 1}, {K: "fs_upd", A: 0, B: 0, C: 3}, {K: "dg_params", A: 2}, {K: "fs_upd", A: 0, B: 0, C: 3},
+		{K: "dg_params", A: 4}, {K: "dg_params", A: 3, B: 1, C: 2},
+		{K: "wasm_admin", A: 0, B: 2}, {K: "fs_upd", A: 0, B: 0, C: 5}, // new admin points the share back to the (old) deployer
+	}
 	return []c20Input{
 		{Ops: full, Dt: 3600},
+		{Ops: devgas, Dt: 900},
 		{Ops: strs, Dt: 4242},
 		{Ops: shared, Dt: 777},
 		{Ops: []c20Op{{K: "or_alloc", A: 3, B: 2}, {K: "or_alloc", A: 5, B: 3}}, Dt: 10},
 		{Ops: []c20Op{{K: "tf_create", A: 0, B: 0}, {K: "tf_md", A: 0, B: 2}}, Dt: 10},
 		{Ops: []c20Op{{K: "deploy", A: 0, B: 0, C: 1, Slots: [][2]int{{1, 5}}}, {K: "deploy", A: 0, B: 2, Slots: [][2]int{{1, 6}}}, {K: "destroy", A: 1}}, Dt: 10},
+		{Ops: []c20Op{{K: "epoch", A: 1}, {K: "infl_toggle", A: 1}}, Dt: 10}, // epochs skipped before inflation is switched on
 		{Ops: []c20Op{}, Dt: 1},
 	}
 }
